@@ -7,7 +7,7 @@ From QV Require Import Spec.MsgWriterS.
 From QV Require Import Base.ListX Model.MsgWriter Proofs.MsgWriterP Proofs.MsgWriterScanP
      Proofs.MsgWriterNameP Proofs.MsgWriterInvP Proofs.MsgWriterTopP Proofs.MsgWriterClosP
      Proofs.MsgWriterNameSP Proofs.MsgWriterLayP Proofs.MsgWriterOpP Proofs.MsgWriterStepP
-     Proofs.MsgWriterMsgP Proofs.MsgWriterDecP Proofs.MsgWriterHdrP Proofs.MsgWriterRtP.
+     Proofs.MsgWriterMsgP Proofs.MsgWriterDecP Proofs.MsgWriterHdrP Proofs.MsgWriterGetP Proofs.MsgWriterRtP.
 From QV Require Import Spec.MsgWriterAbsS.
 
 (* For EVERY operation sequence from a fresh writer, the state satisfies
@@ -159,6 +159,17 @@ Theorem c12_header_invariant : forall d H o d' r, Inv_n (d_w d) -> HInv (d_w d) 
   step d o = Ok (d', r) -> HInv (d_w d') (hstep H o r).
 Proof. exact hstep_ok. Qed.
 
+(* The getters (id, QR, opcode, AA, TC, RD, RA, RCODE, extended RCODE, QD/AN/NS/ARCOUNT), at any point of
+   a contract-obeying run, return the values denoted by the operations that succeeded so far. *)
+Theorem c12_getters : forall buf limit w0 ops d outs, writer_new buf limit = Ok w0 ->
+  run_contract (mkD w0 []) g0 ops -> Forall op_wf3 ops ->
+  run (mkD w0 []) ops = Ok (d, outs, true) ->
+  let A := areplay am0 ops outs in let H := hreplay ah0 ops outs in
+  getters (d_w d) =
+    Ok (expected_get H (N.of_nat (length (am_qs A))) (N.of_nat (length (am_an A))) (N.of_nat (length (am_ns A)))
+          (N.of_nat (length (am_ar A)) + (if h_edns H then 1 else 0) + (if h_tsig H then 1 else 0))%N).
+Proof. exact getters_run. Qed.
+
 (* The component table regenerated from the Rust source is the RFC layout of the specification. *)
 Theorem c12_component_table_is_rfc_layout : forall cl ty, layout cl ty = map sf_of (component_types cl ty).
 Proof. exact layout_table. Qed.
@@ -232,3 +243,4 @@ Print Assumptions c12_layout_invariant_all_ops.
 Print Assumptions c12_roundtrip.
 Print Assumptions c12_header_invariant.
 Print Assumptions c12_component_table_is_rfc_layout.
+Print Assumptions c12_getters.
